@@ -828,7 +828,7 @@ def Schema.messageShape (S : Schema) (N : Nat) : Bool :=
     if d.defTag = T.requestMessage ∨ d.defTag = T.responseMessage then
       match d.fields with
       | [fh, fb] =>
-        !fh.setVersion && !fb.setVersion && fh.vrange.isNone && !fh.omitempty && !d.encCustom &&
+        !fh.setVersion && !fb.setVersion && fh.vrange.isNone && !fh.omitempty && !fh.dynTag &&
         svFreeK S N fb.kind &&
         (match fh.kind with
          | .struct h =>
